@@ -88,6 +88,18 @@ def rule_crash_discipline(ctx: Ctx) -> None:
         else:
             f = atoms(v, True)
             ok = len(f) == 1 and f[0].op == "lt" and f[0].a == "0" and f[0].b.endswith("._down_windows")
+            if not ok and len(f) == 1 and f[0].op == "lt" and f[0].a == "0" and obj is not None:
+                # `n = <new count>; obj._down_windows = n; obj._crashed = n > 0`: the compared local is the count just stored
+                ffw = ctx.flow(fn)
+                ok = ffw.same_value(node_of(ffw.cfg, st), f[0].b, f"{obj}._down_windows")
+                if not ok:
+                    # or: the local and the stored count are computed by the same expression in adjacent statements
+                    body = fn.node.body
+                    for i_, s1 in enumerate(body[:-1]):
+                        s2 = body[i_ + 1]
+                        if isinstance(s1, ast.Assign) and isinstance(s2, ast.Assign) and path_of(s1.targets[0]) == f[0].b and path_of(s2.targets[0]) == f"{obj}._down_windows" \
+                                and unparse(s1.value) == unparse(s2.value) and sum(1 for x in walk_stmts(body) if isinstance(x, ast.Assign) and path_of(x.targets[0]) == f[0].b) == 1:
+                            ok = True
             ctx.ob("C06-3", "G6", fn, st, ok, f"the crash flag is recomputed as `<window count> > 0` (got `{unparse(v)}`)")
     ld = prog.func(NODE, "_leave_down")
     dec = [s for s in walk_stmts(ld.node.body) if isinstance(s, ast.Assign) and isinstance(s.targets[0], ast.Attribute) and s.targets[0].attr == "_down_windows"]
